@@ -1,6 +1,8 @@
 package providers
 
 import (
+	"net/http"
+
 	"github.com/buzzfeed/sso/internal/pkg/groups"
 	"github.com/buzzfeed/sso/internal/pkg/singleflight"
 )
@@ -12,3 +14,6 @@ func (p *SingleFlightProvider) VerifGroup() *singleflight.Group { return p.singl
 func (p *GroupCache) VerifPurge(email, joined string) {
 	p.cache.Purge(groups.CacheKey{Email: email, AllowedGroups: joined})
 }
+
+// VerifSetHTTPTransport points every identity-provider call of this package at the harness's scripted IdP.
+func VerifSetHTTPTransport(rt http.RoundTripper) { httpClient.Transport = rt }
